@@ -441,6 +441,16 @@ func matchDescent(c *Ctx, rule string) {
 					}
 				}
 				c.Check(ok, rule, fnName(f), fmt.Sprintf("query exhausted=%v", qlen == 0), P.Pos(f.Pos()), detail+"; path: "+p.String())
+				// registration is unconditional: whatever the node already holds (other clients, this client
+				// registered for a shorter query, children or none), addQuery stores the client / descends
+				if f == addQ {
+					if qlen == 0 {
+						reg := p.Has(func(ev *Ev) bool { return strings.HasPrefix(ev.Label, "mapupdate:") && ev.Field == fClients })
+						c.Check(reg, rule, fnName(f), "query exhausted: the client is stored on every path", P.Pos(f.Pos()), "path: "+p.String())
+					} else {
+						c.Check(p.Has(isSelf), rule, fnName(f), "query not exhausted: the descent happens on every path", P.Pos(f.Pos()), "path: "+p.String())
+					}
+				}
 			}
 			c.Check(some, rule, fnName(f), fmt.Sprintf("query exhausted=%v: the registration is touched / the descent happens on some path", qlen == 0), P.Pos(f.Pos()), "")
 			c.Floor(fmt.Sprintf("%s/%s(exhausted=%v)", rule, fnName(f), qlen == 0), n, 1)
